@@ -865,6 +865,23 @@ def iter_map(I, st, depth, callee, args, body, ln):
 
 def iter_filter(I, st, depth, callee, args, body, ln):
     it, f = _it(I, st, args[0]), args[1]
+    if it.kind == "exact":
+        kept = []
+        exact = True
+        for x in it.items:
+            r_ = _tmp_ref(I, st, x)
+            d = I.call_value(st, depth, f, [r_], body, ln)
+            st.store.pop(r_.alloc, None)
+            if d == 1:
+                kept.append(x)
+            elif d == 0:
+                continue
+            else:
+                kept.append(x)
+                exact = False
+        if exact:
+            return It("exact", kept)
+        return It("rep", [join_all_(kept)]) if kept else It("exact", [])
     refs = [_tmp_ref(I, st, x) for x in it.items]
     _apply_rep(I, st, depth, f, [[r] for r in refs], body, ln)
     for r in refs:
